@@ -258,6 +258,8 @@ PROPS = {
         "rule": "soundness: every board returned by build() / from_fen / FromStr on candidate states and texts (accepted boards with 1-2 random mutations, targeted single-defect states per clause, random builder states, corrupted records) and every state logged along histories must satisfy Valid; acceptance: all 960 single and sampled (thorough: all 921 600) double start constructors equal Start(w,k) and positions along random play from them re-enter as text and through the builder",
         "assumptions": BOARD_ASSUME,
         "jobs": [
+            {"type": "model", "name": "model-starts", "spec": "MC_Starts", "exhaustive": True,
+             "params": {"quick": {"workers": 16, "xmx": "6g", "starts_mc": {"pairs": 3}}, "thorough": {"workers": 16, "xmx": "6g", "timeout": 5000, "starts_mc": {"pairs": 60}}}},
             chess_model("model-sound", ["Sound", "ReachAccepted"], [], dict(MCQ, roots="starts", max_roots=120), dict(MCT, roots="starts", depth=2, max_roots=300)),
             parse_job("candidates", "cand", ["C06"], {"bases": 250, "mutations": 8, "random": 400}, {"bases": 12000, "mutations": 12, "random": 30000}, sample_kinds=["build"]),
             parse_job("starts", "starts", ["C06"], {"pairs": 2500}, {"all-pairs": 1}, sample_kinds=["start"]),
